@@ -101,6 +101,35 @@ func run() int { return d(1200) + d(2500) }
 		Main: "run()", Globals: []string{"cnt", "dcnt", "tr"}, Reset: "reset()",
 	},
 	{
+		// the deferred closure calls a function that has a defer of its own and returns
+		// normally while the interrupt panic unwinds (round-2 seeded change C13-b: the
+		// inner function's normal return must not make the outer one forget the panic)
+		Name: "deferred-closure-calls-function-with-defer",
+		Defs: common + `
+func inner(n int) (r int) {
+	defer func() { dcnt++ }()
+	HV(104, dcnt)
+	for i := 0; i < n; i++ { dcnt++ }
+	return n
+}
+func d2(n int) (r int) {
+	HV(1, cnt)
+	defer func() {
+		HV(101, dcnt)
+		inner(n)
+		HV(102, dcnt)
+		tr = append(tr, n)
+	}()
+	HV(2, cnt)
+	spin(n)
+	HV(3, cnt)
+	return n
+}
+func run() int { return d2(1200) + d2(2500) }
+`,
+		Main: "run()", Globals: []string{"cnt", "dcnt", "tr"}, Reset: "reset()",
+	},
+	{
 		Name: "recursion",
 		Defs: common + `
 func rec(n int) int {
